@@ -35,7 +35,10 @@ class Builder:
 
     def file(self, rel, crate, modpath, uses=""):
         """rel: repo-relative source file; modpath: module path of that file inside its crate ('' for lib.rs)."""
-        self.files.setdefault(rel, {"crate": crate, "modpath": modpath, "uses": uses, "body": []})
+        f = self.files.setdefault(rel, {"crate": crate, "modpath": modpath, "uses": "", "body": []})
+        for line in uses.splitlines(True):
+            if line not in f["uses"]:
+                f["uses"] += line
         return rel
 
     def helper(self, rel, text):
